@@ -4,6 +4,8 @@ import ALV.Model.C05List
 import ALV.Model.C05Lin
 import ALV.Spec.C05
 import ALV.Spec.C05List
+import ALV.Model.C05Hist
+import ALV.Spec.C05Subst
 namespace ALV.Driver.C05
 open ALV ALV.J ALV.C07 ALV.C05
 
@@ -405,17 +407,45 @@ def observeO (x : O) (xs : List Rat) : Json :=
 
 /-! ### fractional delays -/
 
-def ratTrunc (k : Rat) : Int := if k < 0 then -((-k).floor) else k.floor
-
 def getFTerm (j : Json) : Except String (Rat × Rat) := do
   match ← getArr j with
   | [a, b] => pure (← getRat a, ← getRat b)
   | _ => throw "expected [power, coeff]"
 
-/-- the terms in `terms()` order (ascending powers) with `left = int(k)`, `w = k - left` -/
-def fterms (l : List (Rat × Rat)) : List (FTerm Rat) :=
-  let sorted := l.mergeSort (fun a b => a.1 ≤ b.1)
-  sorted.map fun kv => ⟨ratTrunc kv.1, kv.1 - (ratTrunc kv.1 : Int), kv.2⟩
+/-! ### histories of one mutable filter list -/
+
+def getEv (j : Json) : M (Ev Rat) := do
+  let l ← liftD (getArr j)
+  let part (x : Json) : M (FL Rat) := do
+    match ← evalO x with
+    | .fl o => pure o
+    | _ => unmodelled "a plain list as a part"
+  let parts (x : Json) : M (FLs Rat) := do
+    pure (FLs.ofList (← (← liftD (getArr x)).mapM part))
+  match l with
+  | [Json.str "set", i, g] => do pure (.act (.setItem (← liftD (getInt i)) (← part g)))
+  | [Json.str "setall", xs] => do pure (.act (.setAll (← parts xs)))
+  | [Json.str "append", g] => do pure (.act (.append (← part g)))
+  | [Json.str "extend", xs] => do pure (.act (.extend (← parts xs)))
+  | [Json.str "polys"] => pure .polys
+  | [Json.str "lists"] => pure .lists
+  | [Json.str "call", xs] => do pure (.call (← liftD (getList getRat xs)))
+  | _ => throw (.drv s!"C05: bad event {j.compress}")
+
+def obsJ : Obs Rat → Json
+  | .polys r => Json.mkObj [("polys", polysJ r)]
+  | .lists n d => Json.mkObj [("numlist", exceptJ rats n), ("denlist", exceptJ rats d)]
+  | .out r => Json.mkObj [("out", sigJ r)]
+
+/-- `g = c·z^(−d)` as the operators build it? -/
+def asMono (g : F) : Option (Rat × Int) :=
+  match g.num, g.den with
+  | [(d, c)], [(0, one)] => if one = 1 ∧ c ≠ 0 ∧ d ≠ 0 then some (c, d) else none
+  | _, _ => none
+
+def optRatJ : Option Rat → Json
+  | some v => ratToJson v
+  | none => Json.null
 
 def handle (entry : String) (j : Json) : Except String Json := do
   let xs ← getList getRat (fieldD j "xs" (Json.arr []))
@@ -501,10 +531,44 @@ def handle (entry : String) (j : Json) : Except String Json := do
     let num ← getList getFTerm (← field j "num")
     let den ← getList getFTerm (← field j "den")
     let m := exceptJ (fun g => Json.mkObj [("num", polyJ (sortAsc g.num)), ("den", polyJ (sortAsc g.den))])
-      (linearizeF (fterms num) (fterms den))
+      (linearizeQ num den)
     -- the weights of one term add up to one: the coefficient sums (the gain at z = 1) are kept
     let sum (l : List (Rat × Rat)) : Rat := l.foldl (fun a kv => a + kv.2) 0
     pure <| Json.mkObj [("model", m), ("spec", Json.mkObj [("sum_num", ratToJson (sum num)), ("sum_den", ratToJson (sum den))])]
+  | "hist" =>
+    let m ← mToJson (do
+      let x ← evalO (← liftD (field j "obj"))
+      let evs ← (← liftD (getArr (← liftD (field j "evs")))).mapM getEv
+      match x with
+      | .fl (.node k ps) =>
+        match runHist envFn k ps evs with
+        | none => unmodelled "IndexError in a history"
+        | some obs =>
+          let cached := match runHistCached k ps none evs with
+            | some l => Json.arr (l.map polysJ)
+            | none => Json.null
+          pure (Json.mkObj [("obs", Json.arr (obs.map obsJ)), ("regress_cached", cached)])
+      | _ => unmodelled "history of something that is not a filter list")
+    pure <| Json.mkObj [("model", m)]
+  | "substpt" =>
+    let pts ← getList getRat (← field j "pts")
+    let m ← mToJson (do
+      let f ← evalM (← liftD (field j "f"))
+      let g ← evalM (← liftD (field j "g"))
+      let spec := Json.mkObj [("comp", Json.arr (pts.map fun z0 => optRatJ (evalComp f g z0))),
+        ("mono", match asMono g with
+          | some (c, d) => Json.mkObj [("num", polyJ (canon (monoSubst f.num c d))), ("den", polyJ (canon (monoSubst f.den c d)))]
+          | none => Json.null)]
+      match subst f g with
+      | .error e => pure (Json.mkObj [("model", errJ e), ("spec", spec)])
+      | .ok h =>
+        pure (Json.mkObj [("model", Json.mkObj [("num", polyJ (sortAsc h.num)), ("den", polyJ (sortAsc h.den)),
+            ("vals", Json.arr (pts.map fun z0 => optRatJ (evalZF h z0))),
+            ("mono_equiv", match asMono g with
+              | some (c, d) => boolJ (rEquiv (rOf h) ⟨canon (monoSubst f.num c d), canon (monoSubst f.den c d)⟩)
+              | none => Json.null)]),
+          ("spec", spec)]))
+    pure m
   | _ => throw s!"C05: unknown entry {entry}"
 
 end ALV.Driver.C05
